@@ -1,5 +1,5 @@
 (* Properties_C08.v — obligations of property C08 (RadioText A/B protocol). *)
-Require Import ObsRun Lemmas_TextProps.
+Require Import ObsRun Lemmas_TextProps Lemmas_CbRt.
 Local Open Scope Z_scope.
 
 (* the register "flag last seen" of a reachable state is the history function h_last_rt: the A/B
@@ -53,7 +53,20 @@ Proof.
 Qed.
 Print Assumptions C08_only_type2.
 
-(* PARTIAL: the RT callback ("reports that flag") is covered by the observer obs_C08 / obs_C04,
-   which are evaluated (model: Example below; library: the check) but not proved for all runs. *)
+(* the RT callback: when the switch empties a buffer that held something, the callback is made
+   (if registered) and reports the new flag; an ignored group makes none *)
+Theorem C08_rt_callback : forall conv lut g s, Inv conv s -> wf_group g -> b_group (gb g) = 2 ->
+  let s' := fst (process conv lut g s) in
+  let f := b_rtflag (gb g) in
+  let last := last_rt s in
+  let clr := (eb g =? 0) && negb (f =? last) && negb (last =? -1) && string_available (rt_of f s) in
+  let ignored := negb (eb g =? 0) && negb (f =? last) && negb (last =? -1) in
+  let base := if clr then cells (string_clear (rt_of f s)) else cells (rt_of f s) in
+  filter (isf FRT) (snd (process conv lut g s)) =
+  if ignored then []
+  else if (clr || negb (cells_eqb (cells (rt_of f s')) base)) && negb (cb s FRT =? 0)
+       then [mkev FRT (cb s FRT) (ud s) (AFlag f) (SmText (tsnap_of (rt_of f s')))] else [].
+Proof. exact rt_callbacks. Qed.
+Print Assumptions C08_rt_callback.
 Example C08_scenario : check_run_u (observer_u 8) scenario = true.
 Proof. vm_compute. reflexivity. Qed.
